@@ -19,7 +19,7 @@ type waiter struct {
 
 // lockState is the logical state shared by Mutex and RWMutex.
 type lockState struct {
-	im      sync.Mutex // real, held for a few instructions only
+	im      InternalLock // held for a few instructions only
 	writer  uint64     // goroutine holding the write lock (0 = none)
 	wheld   bool
 	readers map[uint64]int
@@ -42,7 +42,8 @@ type RWMutex struct {
 
 func (m *Mutex) Lock() {
 	s := cur.Load()
-	if s == nil {
+	if s == nil || RaceMode {
+		s.raceYield()
 		m.real.Lock()
 		return
 	}
@@ -51,7 +52,7 @@ func (m *Mutex) Lock() {
 
 func (m *Mutex) TryLock() bool {
 	s := cur.Load()
-	if s == nil {
+	if s == nil || RaceMode {
 		return m.real.TryLock()
 	}
 	return s.tryAcquire(&m.st, true)
@@ -59,7 +60,7 @@ func (m *Mutex) TryLock() bool {
 
 func (m *Mutex) Unlock() {
 	s := cur.Load()
-	if s == nil {
+	if s == nil || RaceMode {
 		m.real.Unlock()
 		return
 	}
@@ -68,7 +69,8 @@ func (m *Mutex) Unlock() {
 
 func (m *RWMutex) Lock() {
 	s := cur.Load()
-	if s == nil {
+	if s == nil || RaceMode {
+		s.raceYield()
 		m.real.Lock()
 		return
 	}
@@ -77,7 +79,7 @@ func (m *RWMutex) Lock() {
 
 func (m *RWMutex) Unlock() {
 	s := cur.Load()
-	if s == nil {
+	if s == nil || RaceMode {
 		m.real.Unlock()
 		return
 	}
@@ -86,7 +88,8 @@ func (m *RWMutex) Unlock() {
 
 func (m *RWMutex) RLock() {
 	s := cur.Load()
-	if s == nil {
+	if s == nil || RaceMode {
+		s.raceYield()
 		m.real.RLock()
 		return
 	}
@@ -95,7 +98,7 @@ func (m *RWMutex) RLock() {
 
 func (m *RWMutex) RUnlock() {
 	s := cur.Load()
-	if s == nil {
+	if s == nil || RaceMode {
 		m.real.RUnlock()
 		return
 	}
@@ -104,7 +107,7 @@ func (m *RWMutex) RUnlock() {
 
 func (m *RWMutex) TryLock() bool {
 	s := cur.Load()
-	if s == nil {
+	if s == nil || RaceMode {
 		return m.real.TryLock()
 	}
 	return s.tryAcquire(&m.st, true)
@@ -112,7 +115,7 @@ func (m *RWMutex) TryLock() bool {
 
 func (m *RWMutex) TryRLock() bool {
 	s := cur.Load()
-	if s == nil {
+	if s == nil || RaceMode {
 		return m.real.TryRLock()
 	}
 	return s.tryAcquire(&m.st, false)
@@ -131,9 +134,27 @@ type gateEntry struct {
 	ch chan struct{}
 }
 
+// raceYield (race build only): before a product lock acquisition the goroutine yields the
+// processor a PRNG-chosen number of times. Gosched adds no happens-before edge, so the schedule
+// varies between runs while the detector still sees only the product's synchronisation.
+func (s *Sim) raceYield() {
+	if s == nil || !RaceMode || s.cfg.GateProb <= 0 {
+		return
+	}
+	if goid() == s.driver {
+		return
+	}
+	for n := 0; n < 3 && s.sched.Chance(s.cfg.GateProb); n++ {
+		s.stats.GateParks++
+		s.stats.SchedChoices++
+		s.stats.ScheduleHash = s.stats.ScheduleHash*1099511628211 ^ goid()*0x9e3779b97f4a7c15
+		runtime.Gosched()
+	}
+}
+
 // gate parks the caller until the driver schedules it (task-level scheduling).
 func (s *Sim) gate(g uint64) {
-	if s.cfg.GateProb <= 0 || g == s.driver {
+	if s.cfg.GateProb <= 0 || g == s.driver || RaceMode {
 		return // the driver (harness observation code) is never scheduled against the product
 	}
 	s.mu.Lock()
